@@ -1,5 +1,6 @@
 import DendroModel.Model.C08
 import DendroModel.Model.C08Upd
+import DendroModel.Model.C08Heap
 open DendroModel DendroModel.C08
 
 /-- `<k> n_1 … n_k rest…` -/
@@ -103,7 +104,8 @@ def handle (ws : List String) : String :=
       | some (labels, rest) =>
         match checkedTree rest with
         | some (t, []) =>
-          if v == "prune" then (match pruneWithLabels cs ns labels sup t with | some r => r.render | none => "err")
+          if !cs && !(ns.all (fun m => inFoldRange m.2) && labels.all inFoldRange) then "out-of-range"
+          else if v == "prune" then (match pruneWithLabels cs ns labels sup t with | some r => r.render | none => "err")
           else if v == "retain" then (match retainWithLabels cs ns labels sup t with | some r => r.render | none => "err")
           else if v == "with" then exResStr (extractWithLabels cs ns labels sup t)
           else if v == "without" then exResStr (extractWithoutLabels cs ns labels sup t)
@@ -130,7 +132,8 @@ def handle (ws : List String) : String :=
       | some (labels, rest) =>
         match checkedTree rest with
         | some (t, []) =>
-          if v == "prune" then (match pruneWithLabelsUpd r cs ns labels sup t with | some x => renderUpd x | none => "err")
+          if !cs && !(ns.all (fun m => inFoldRange m.2) && labels.all inFoldRange) then "out-of-range"
+          else if v == "prune" then (match pruneWithLabelsUpd r cs ns labels sup t with | some x => renderUpd x | none => "err")
           else if v == "retain" then (match retainWithLabelsUpd r cs ns labels sup t with | some x => renderUpd x | none => "err")
           else "bad-op"
         | _ => "bad-op"
@@ -237,6 +240,15 @@ def handle (ws : List String) : String :=
         | .ok r => r.render
         | .seedDeletion => "SeedNodeDeletion"
         | .valueError => "ValueError"
+      | _ => "bad-op"
+    | _, _, _, _ => "bad-op"
+  -- extractheap <sup> <fl> <fi> <acc> <tree>: Tree.extract_tree run on the object store (Model/C08Heap.lean):
+  -- the tree read back from the store (or the exception) | whether the source objects are what they were
+  | "extractheap" :: sup :: fl :: fi :: rest =>
+    match flag sup, flag fl, flag fi, parseAcc rest with
+    | some sup, some fl, some fi, some (acc, rest) =>
+      match checkedTree rest with
+      | some (t, []) => extractHeapShow acc fl fi sup t
       | _ => "bad-op"
     | _, _, _, _ => "bad-op"
   -- restrictA <sup> <acc> <tree>: the generalised specification of recursive leaf filtering (then suppression)
